@@ -109,15 +109,26 @@ CurrentURL(kind)  == "/replication/" \o kind \o (IF kind = "changesets" THEN "/s
 URL(kind, id)     == IF id = 0 THEN CurrentURL(kind) ELSE StateURL(kind, id)      \* id 0 = "the current state"
 
 \* Concrete times.  Abstract time h (half steps; state n is h = 2n) |-> seconds since 1970 (+ nanoseconds for
-\* the changeset kind).  State 1 of minute / hour / day and changeset state 2007990 get the dates noted in
-\* search.go.  `skew` = 1 moves every third state later by up to half a step (order preserved).
+\* the changeset kind).  A time assignment t: [kind, skew, unit, pauses, pauselen] (part of the rendering
+\* parameters r below) is strictly increasing in h, so it is order-isomorphic to TS - the search only compares
+\* times, its requests must not depend on the choice:
+\*   unit      seconds per half step (Unit(kind) by default: states one minute / hour / day apart; state 1 of
+\*             minute / hour / day and changeset state 2007990 get the dates noted in search.go)
+\*   skew = 1  moves every third state later by up to half a step
+\*   pauses    set of sequence numbers p after which replication paused: pauselen extra seconds between the
+\*             states p and p+1 (heavily non-uniform assignments: pauselen >> unit * number of states).
+\*             A query time h = 2p+1 inside a pause is rendered on either side of it: side 0 = one unit after
+\*             state p, side 1 = one unit before state p+1 (both strictly between the two states).
 Unit(kind)  == CASE kind = "minute" -> 30 [] kind = "hour" -> 1800 [] kind = "day" -> 43200 [] kind = "changesets" -> 30
 Epoch1(kind) == CASE kind = "minute"     -> 1347437745     \* 2012-09-12T08:15:45Z
                   [] kind = "hour"       -> 1373803200     \* 2013-07-14T12:00:00Z
                   [] kind = "day"        -> 1347494400     \* 2012-09-13T00:00:00Z
                   [] kind = "changesets" -> 1352765762     \* so that state 2007990 is 2016-09-07 10:45:02
-Skew(kind, skew, h) == IF skew = 1 /\ h % 2 = 0 THEN ((h \div 2) % 3) * (Unit(kind) \div 4) ELSE 0
-Sec(kind, skew, h)  == Epoch1(kind) + Unit(kind) * (h - 2) + Skew(kind, skew, h)
+UniformTime(kind, skew) == [kind |-> kind, skew |-> skew, unit |-> Unit(kind), pauses |-> {}, pauselen |-> 0]
+Skew(t, h)          == IF t.skew = 1 /\ h % 2 = 0 THEN ((h \div 2) % 3) * (t.unit \div 4) ELSE 0
+PausesBefore(t, h, side) == Cardinality({p \in t.pauses : 2 * p + 1 < h \/ (2 * p + 1 = h /\ side = 1)})
+QSec(t, h, side)    == Epoch1(t.kind) + t.unit * (h - 2) + Skew(t, h) + t.pauselen * PausesBefore(t, h, side)
+Sec(t, h)           == QSec(t, h, 0)
 Nsec(kind, h)       == IF kind = "changesets" THEN 148547780 + (h % 8) * 100000007 ELSE 0
 
 \* civil date from seconds since 1970 (proleptic Gregorian, UTC)
@@ -161,8 +172,8 @@ IntervalBody(n, sec, style) ==
 ChangesetBody(n, sec, nsec, style) ==
   "---\n" \o "last_run: " \o YamlTime(sec, nsec, IF style = 0 THEN "+00:00" ELSE "Z") \o "\n" \o "sequence: " \o ToString(n - 1) \o "\n"
 
-\* rendering parameters r: [kind, skew \in {0,1}, style \in {0,1}, prefix (path prefix of a mirror, may be "")]
-Body(r, n) == LET sec == Sec(r.kind, r.skew, TS(n)) IN
+\* rendering parameters r: a time assignment + [style \in {0,1}, prefix (path prefix of a mirror, may be "")]
+Body(r, n) == LET sec == Sec(r, TS(n)) IN
   IF r.kind = "changesets" THEN ChangesetBody(n, sec, Nsec(r.kind, TS(n)), r.style) ELSE IntervalBody(n, sec, r.style)
 FileOf(r, n)     == [path |-> r.prefix \o StateURL(r.kind, n), body |-> Body(r, n)]
 CurrentFile(r, c) == [path |-> r.prefix \o CurrentURL(r.kind), body |-> Body(r, Cur(c))]   \* a copy of the newest state file
@@ -362,4 +373,20 @@ OffsetDirs(offs, n) == UNION {{DirOf({b + i : i \in S}) : S \in (SUBSET (1 .. n)
 LongDir(o, m, a, b)   == [present |-> ((o + 1) .. (o + m)) \ ((o + a) .. (o + b)), first |-> IF a = 1 THEN o + b + 1 ELSE o + 1, cur |-> o + m]
 LongDirs(offs, sizes, runs) ==
   UNION {UNION {{LongDir(o, m, ab[1], ab[2]) : ab \in {x \in runs : x[2] < m}} : m \in sizes} : o \in offs}
+
+\* pause family (heavily skewed timestamps): complete or nearly complete directories 1 .. m, replication paused
+\* after one or two states (near the oldest state, in the middle, near the newest); query times around the
+\* pauses (on the dense side just before and just after) and the usual selection.  A plan: [d, pauses, qs].
+NoRun == <<2, 1>>                                   \* LongDir with an empty run: nothing missing
+PausePlaces(m) == {{1}, {m \div 2}, {m - 1}, {m - 10}, {m \div 2, m - 1}, {1, m \div 2}}
+PauseRuns(m)   == {NoRun, <<m \div 4, (m \div 4) + 1>>}
+PauseQueries(d, pauses) ==
+  (SelectedQueries(d) \cup UNION {(2 * p - 5) .. (2 * p + 7) : p \in pauses} \cup {2 * p - 21 : p \in pauses}
+     \cup {2 * p + 23 : p \in pauses}) \cap Queries(d)
+PausePlans(sizes) ==
+  UNION {UNION {{LET d == LongDir(0, m, ab[1], ab[2]) IN [d |-> d, pauses |-> ps, qs |-> PauseQueries(d, ps)]
+                  : ps \in PausePlaces(m)} : ab \in PauseRuns(m)} : m \in sizes}
+\* the Model does not see the time assignment (order-isomorphic): the plans only add directories x query times
+PauseInit(sizes, devsets) == \E pl \in PausePlans(sizes) : LET b == RequestBound(pl.d) IN
+                                \E q \in pl.qs, dev \in devsets : cs = CaseWith(pl.d, q, dev, b) /\ st = InitState
 =============================================================================
